@@ -171,12 +171,24 @@ pub fn separate_parallel(sb: &Sandbox, layout: &Layout, seed: u64) -> Option<(bo
         ready.truncate(1 + p.usize(3));
         let mut specs = Vec::new();
         let mut bodies: Vec<Box<dyn FnOnce() -> anyhow::Result<crate::cli::CliOut> + Send>> = Vec::new();
+        let mut labels: Vec<(String, &'static str)> = Vec::new();
         for name in &ready {
             let args = ops::pkg_args(sb, "build", &layout.pkgs[name], &dirs, "par", &mut p);
             specs.push(ProcSpec { entropy: p.next_u64(), readdir: p.next_u64(), chunk, ..Default::default() });
             bodies.push(Box::new(move || crate::cli::entry(&args)));
+            labels.push((name.clone(), "build"));
         }
-        if ready.len() >= 2 {
+        // a `check` of a package running next to its `build` (an editor checking on save, a
+        // pipelined make rule for the interface): both write the same <P>.interface
+        for name in &ready {
+            if p.chance(1, 2) {
+                let args = ops::pkg_args(sb, "check", &layout.pkgs[name], &dirs, "par", &mut p);
+                specs.push(ProcSpec { entropy: p.next_u64(), readdir: p.next_u64(), chunk, ..Default::default() });
+                bodies.push(Box::new(move || crate::cli::entry(&args)));
+                labels.push((name.clone(), "check"));
+            }
+        }
+        if labels.len() >= 2 {
             concurrent_batches += 1;
         }
         let mut sched = Prng::new(p.next_u64());
@@ -184,14 +196,14 @@ pub fn separate_parallel(sb: &Sandbox, layout: &Layout, seed: u64) -> Option<(bo
         procs += results.len() as u64;
         switches += schedule.len();
         let mut failed = false;
-        for (name, res) in ready.iter().zip(results.iter()) {
+        for ((name, what), res) in labels.iter().zip(results.iter()) {
             let result = match &res.exit {
                 Exit::Ok => "ok".to_string(),
                 Exit::Err(m) => format!("err: {}", sb.normalise(m).chars().take(200).collect::<String>()),
                 Exit::Panicked(m) => format!("PANIC: {}", sb.normalise(m)),
                 o => o.class().to_string(),
             };
-            steps.push(Step { op: format!("build (one of {} concurrent)", ready.len()), pkg: name.clone(), dir: "par".into(), result });
+            steps.push(Step { op: format!("{what} (one of {} concurrent)", labels.len()), pkg: name.clone(), dir: "par".into(), result });
             failed |= res.exit != Exit::Ok;
         }
         if failed {
